@@ -171,7 +171,7 @@ func FamConc[T any](c Codec[T], seed int64) SysRecord {
 			from, rem = "B", p.rb
 		}
 		tag := 100 + i
-		kind := r.Intn(11)
+		kind := r.Intn(12)
 		x := int64(r.Intn(1000))
 		s := GenString(r)
 		wg.Add(1)
@@ -209,6 +209,11 @@ func FamConc[T any](c Codec[T], seed int64) SysRecord {
 				ccancel()
 				c.Method, c.Arg = "EchoIntCancelled", canon(x)
 				v, err := rem.EchoInt(cctx, tag, x)
+				c.Ret, c.Err = canon(v), errText(err)
+			case 11: // an argument whose type implements context.Context is data like any other
+				le := Lease{ID: int(x), Owner: "o" + s}
+				c.Method, c.Arg = "EchoLease", canon(le)
+				v, err := rem.EchoLease(context.Background(), tag, le)
 				c.Ret, c.Err = canon(v), errText(err)
 			case 9: // a nil pointer argument reaches the handler as a nil pointer
 				c.Method, c.Arg = "EchoPtr", "null"
@@ -713,6 +718,17 @@ func FamErrors[T any](c Codec[T], stream bool, chunk int, seed int64, n int) Sys
 		}
 		if !waitAll(&wg, 8*time.Second) {
 			rec.Hang = true
+		}
+	}
+	// two callables of different result shapes in one call (value and error / error only): the error a callable
+	// returns reaches the handler that invoked it, with its value
+	{
+		sctx, scancel := context.WithTimeout(ctx, 4*time.Second)
+		v, err := p.ra.Shapes(sctx, 397, func(ctx context.Context, x int) (int, error) { return 7, errors.New("out of stock") },
+			func(ctx context.Context, x int) error { return errors.New("not done") })
+		scancel()
+		if err != nil || v != "7/out of stock;not done" {
+			rec.Notes = append(rec.Notes, fmt.Sprintf("two callables of different result shapes in one call, the first returning (7, 'out of stock'), the second 'not done': the handler that invoked them received %q (call error %v), expected \"7/out of stock;not done\"", v, err))
 		}
 	}
 	// a call is abandoned by its caller (context cancelled) while its handler is still running; the handler then
